@@ -12,11 +12,13 @@ import (
 	"go.nanomsg.org/mangos/v3"
 	_ "go.nanomsg.org/mangos/v3/transport/tcp"
 	_ "go.nanomsg.org/mangos/v3/vh/vipc"
+	"go.nanomsg.org/mangos/v3/vh/c07"
 	"go.nanomsg.org/mangos/v3/vh/kinds"
 	"go.nanomsg.org/mangos/v3/vh/kit"
 	"go.nanomsg.org/mangos/v3/vh/ledger"
 	"go.nanomsg.org/mangos/v3/vh/vnet"
 	"go.nanomsg.org/mangos/v3/vz/vexplore"
+	"go.nanomsg.org/mangos/v3/vz/vsched"
 )
 
 const addr = "127.0.0.1:4000"
@@ -42,6 +44,8 @@ func init() {
 			{Name: "frame-truncated-everywhere", Mode: "enum", Reset: kit.ResetGlobals, Body: frameTruncated, NeedCounters: []string{"truncated-nothing-delivered"}},
 			{Name: fmt.Sprintf("protocol-bodies-len<=%d", L), Mode: "enum", Reset: kit.ResetGlobals, Body: func() { protoBodies(L) }, NeedCounters: []string{"hostile-dropped", "hostile-delivered-as-reference", "control-still-served"}},
 			{Name: "replayed-answers", Mode: "enum", Reset: kit.ResetGlobals, Body: replayedAnswers, NeedCounters: []string{"replay-dropped"}},
+			{Name: "response-vs-survey-expiry", Mode: "sched", Bound: b, Reset: kit.ResetGlobals, Cfg: vsched.Config{EarlyTimers: true}, Body: c07.SchedExpiry},
+			{Name: "response-vs-new-survey", Mode: "sched", Bound: b, Reset: kit.ResetGlobals, Body: c07.SchedNewSurvey},
 			{Name: "stalled-handshake-vs-good-peer", Mode: "sched", Bound: b, Reset: kit.ResetGlobals, Body: stalledVsGood},
 		}
 	})
